@@ -4,8 +4,8 @@ use std::io::{BufWriter, Read, Write};
 use std::path::{Path, PathBuf};
 use std::{env, fs, io};
 use xml_dom::{
-    AsExpandedName, AsNode, Attr, AttrMut, CharacterData, Document, DocumentMut, NamedNodeMapMut,
-    Node, PrettyPrint, ProcessingInstruction,
+    AsExpandedName, AsNode, Attr, AttrMut, CharacterData, Document, DocumentMut, ElementMut,
+    NamedNodeMapMut, Node, PrettyPrint, ProcessingInstruction,
 };
 
 struct Argument {
@@ -187,6 +187,42 @@ where
     }
 }
 
+/// `xmlns` / `xmlns:prefix` declarations that `element` makes itself: its in-scope
+/// namespaces that its parent element does not have with the same name.
+fn declared_namespaces(element: &xml_dom::XmlElement) -> Result<Vec<(String, String)>, Box<dyn Error>> {
+    fn in_scope(element: &xml_dom::XmlElement) -> Result<Vec<(String, String)>, Box<dyn Error>> {
+        let mut ns = vec![];
+        for n in element.in_scope_namespace()? {
+            if !n.implicit() {
+                let name = match n.node_name().as_str() {
+                    "xmlns" => "xmlns".to_string(),
+                    prefix => format!("xmlns:{}", prefix),
+                };
+                ns.push((name, n.node_value()?.unwrap_or_default()));
+            }
+        }
+        Ok(ns)
+    }
+
+    let inherited = match element.parent_node() {
+        Some(xml_dom::XmlNode::Element(parent)) => in_scope(&parent)?,
+        _ => vec![],
+    };
+
+    let own = in_scope(element)?;
+    let mut declared: Vec<(String, String)> = own
+        .iter()
+        .filter(|v| !inherited.contains(v))
+        .cloned()
+        .collect();
+    // `xmlns=""` takes the default namespace away again.
+    if inherited.iter().any(|v| v.0 == "xmlns") && !own.iter().any(|v| v.0 == "xmlns") {
+        declared.push(("xmlns".to_string(), String::new()));
+    }
+
+    Ok(declared)
+}
+
 fn parse_node(node: &str) -> Result<xml_dom::XmlElement, Box<dyn Error>> {
     let doc = format!("<e>{}</e>", node);
     let (rest, dom) = xml_dom::XmlDocument::from_raw(doc.as_str())?;
@@ -269,6 +305,11 @@ where
         xml_dom::XmlNode::Element(v) => {
             let n = document_of(&node).create_element(qualified_name(&v)?.as_str())?;
             node.append_child(n.as_node())?;
+
+            // namespace declarations are not in `attributes()`: copy those written on `v`.
+            for (name, uri) in declared_namespaces(&v)? {
+                n.set_attribute(name.as_str(), uri.as_str())?;
+            }
 
             if let Some(attributes) = v.attributes() {
                 for descendant in attributes.iter() {
